@@ -221,8 +221,8 @@ class EscapeAnalysis:
         value = fn.module.assigns.get(e.id)
         if value is None and fn.cls is not None:
             value = fn.cls.assigns.get(e.id)
-        if value is None:
-            return None
+        if value is None or not isinstance(value, (ast.Tuple, ast.Name, ast.Attribute)):
+            return None  # a computed value: the folder is asked
         out: List[str] = []
         for x in (value.elts if isinstance(value, ast.Tuple) else [value]):
             n = self.exc_name(fn, x)
